@@ -42,7 +42,11 @@ OPS = [
     # parameter values and link attributes that need quoting in a lookup result: a double quote, a trailing backslash
     ("reg", "e2", None, 60, "L3", 'x=a"b'), ("reg", "e1", "d1", 60, "L1", "x=q\\"),
     ("badreg", "noep"), ("badreg", "lt=abc"), ("badreg", "twolt"), ("badreg", "rt=x"), ("badreg", "body"), ("badreg", "cf"),
-    ("upd", 0, "lt=120"), ("upd", 0, "x=2"), ("upd", 0, "base=coap://[2001:db8::77]:1234"), ("upd", 0, "ep=e9"), ("upd", 0, "lt=abc"), ("upd", 0, "body"), ("upd", 1, "lt=60"),
+    ("upd", 0, "lt=120"), ("upd", 0, "x=2"), ("upd", 0, "base=coap://[2001:db8::77]:1234"),
+    # a valid new lifetime next to a parameter that makes the whole update invalid
+    ("upd", 0, "lt=30&base=coap://[2001:db8::a]&base=coap://[2001:db8::b]"),
+    # a re-registration that carries neither lt nor base nor anything else: default lifetime, base from the source address
+    ("reg", "e1", None, None, "L1", None), ("upd", 0, "ep=e9"), ("upd", 0, "lt=abc"), ("upd", 0, "body"), ("upd", 1, "lt=60"),
     ("put", 0, "L2"), ("put", 0, "badbody"), ("put", 0, "L2+d=zz"),
     ("del", 0), ("del", 1), ("upd", "nowhere", "lt=60"),
     ("t", "before"), ("t", "after"),
@@ -190,8 +194,8 @@ def apply(st, op):
                 r = request(st, POST, loc, ["lt=500"], b"junk", None, ep=src)
                 expect_error = True
             else:
-                r = request(st, POST, loc, [arg], ep=src)
-                if m is None or arg in ("ep=e9", "lt=abc"):
+                r = request(st, POST, loc, arg.split("&"), ep=src)
+                if m is None or arg in ("ep=e9", "lt=abc") or "&" in arg:
                     expect_error = True
                 else:
                     if int(r.code) != 68:
